@@ -143,6 +143,8 @@ void AbstractParameterAliasable::aliasParameters(map<string, string>& unparsedPa
       {
         if (!pl.hasParameter(it->second))
           throw ParameterNotFoundException("Unknown aliasing parameter", it->first + "->" + it->second);
+        // The source is itself waiting to be aliased: try this entry again in the next pass.
+        ++it;
         continue;
       }
       unique_ptr<Parameter> p2(pp->clone());
